@@ -4,6 +4,7 @@ import (
 	"fmt"
 	"go/types"
 	"math"
+	"os"
 	"sort"
 	"sync"
 )
@@ -502,6 +503,209 @@ func (c *Ctx) ownRun() map[string]*simpleVerdict {
 			note("clones", "", "")
 		}
 	}
+	// ---- (c2) histories on copies: mutating a copy never changes the original -------------------------
+	// every way of obtaining a second holder of the same value (Clone, Assign, NewVariant / SetAsObject of the variant,
+	// a second variant built from / set to the same list) x every exported mutator applied to the copy (also two in a
+	// row): the original - and the list the caller handed over - reads exactly as before, nested lists included
+	var deep func(v mv, depth int) string
+	deep = func(v mv, depth int) string {
+		if _, isNil := v.(mNilT); isNil {
+			return "nil"
+		}
+		if p, ok := v.(*mv); ok && p == nil {
+			return "nil"
+		}
+		tag := h.typeOf(v)
+		if tag != "Array" || depth > 4 {
+			return tag + ":" + h.payloadOf(v)
+		}
+		r, out := call(v, "AsArray")
+		sl, ok := r.(mSlice)
+		if out.kind != "ok" || !ok {
+			return "Array:?" + out.why
+		}
+		s := "["
+		for i, e := range sl.arr {
+			if i > 0 {
+				s += " "
+			}
+			s += deep(e, depth+1)
+		}
+		return s + "]"
+	}
+	deepList := func(l mSlice) string {
+		s := "["
+		for i, e := range l.arr {
+			if i > 0 {
+				s += " "
+			}
+			s += deep(e, 1)
+		}
+		return s + "]"
+	}
+	type mutator struct {
+		name      string
+		arrayOnly bool
+		needElem  bool
+		run       func(cp mv) mOutcome
+	}
+	one := func(name string, args ...mv) func(cp mv) mOutcome {
+		return func(cp mv) mOutcome { _, o := call(cp, name, args...); return o }
+	}
+	fresh := func(ns ...int64) mv {
+		var es []mv
+		for _, n := range ns {
+			es = append(es, mkInt(n))
+		}
+		v, _ := m.Call(c.MustFunc(pkgVariants, "", "VariantFromArray"), mSlice{es})
+		return v
+	}
+	mutators := []mutator{
+		{"Clear()", false, false, one("Clear")},
+		{"SetAsInteger(77)", false, false, one("SetAsInteger", int64(77))},
+		{"SetAsString(\"z\")", false, false, one("SetAsString", "z")},
+		{"SetAsObject(nil)", false, false, one("SetAsObject", mNil)},
+		{"SetAsArray([9])", false, false, func(cp mv) mOutcome { _, o := call(cp, "SetAsArray", mSlice{[]mv{mkInt(9)}}); return o }},
+		{"Assign(Integer 5)", false, false, func(cp mv) mOutcome { _, o := call(cp, "Assign", mkInt(5)); return o }},
+		{"Assign([8 9])", false, false, func(cp mv) mOutcome { _, o := call(cp, "Assign", fresh(8, 9)); return o }},
+		{"Assign(nil)", false, false, one("Assign", mNil)},
+		{"SetLength(6)", true, false, one("SetLength", int64(6))},
+		{"SetByIndex(0, 77)", true, false, func(cp mv) mOutcome { _, o := call(cp, "SetByIndex", int64(0), mkInt(77)); return o }},
+		{"SetByIndex(5, 77)", true, false, func(cp mv) mOutcome { _, o := call(cp, "SetByIndex", int64(5), mkInt(77)); return o }},
+		{"SetByIndex(0, 77) then Clear()", true, false, func(cp mv) mOutcome {
+			if _, o := call(cp, "SetByIndex", int64(0), mkInt(77)); o.kind != "ok" {
+				return o
+			}
+			_, o := call(cp, "Clear")
+			return o
+		}},
+		{"SetLength(6) then Clear()", true, false, func(cp mv) mOutcome {
+			if _, o := call(cp, "SetLength", int64(6)); o.kind != "ok" {
+				return o
+			}
+			_, o := call(cp, "Clear")
+			return o
+		}},
+		{"Clear() then SetAsArray([9])", false, false, func(cp mv) mOutcome {
+			if _, o := call(cp, "Clear"); o.kind != "ok" {
+				return o
+			}
+			_, o := call(cp, "SetAsArray", mSlice{[]mv{mkInt(9)}})
+			return o
+		}},
+	}
+	if os.Getenv("OWN_ELEMENTS") != "" {
+		// writing INTO an element handed out by the copy (GetByIndex(0).SetAsInteger / .Clear): not part of the rule -
+		// the unchanged tree shares element variants between a list and its copies (see the round-9 report)
+		mutators = append(mutators, mutator{"GetByIndex(0).SetAsInteger(77)", true, true, func(cp mv) mOutcome {
+			e, o := call(cp, "GetByIndex", int64(0))
+			if o.kind != "ok" {
+				return mOutcome{kind: "ok"}
+			}
+			if _, isNil := e.(mNilT); isNil {
+				return mOutcome{kind: "ok"}
+			}
+			_, o = call(e, "SetAsInteger", int64(77))
+			return o
+		}})
+	}
+	routes := []string{"Clone()", "EmptyVariant().Assign(it)", "NewVariant(it)", "VariantFromObject(it)", "EmptyVariant().SetAsObject(it)",
+		"VariantFromArray(the same list)", "EmptyVariant().SetAsArray(the same list)", "NewVariant(the same list)", "a clone of its clone"}
+	for ri, route := range routes {
+		for mi, mu := range mutators {
+			m.steps = 0
+			pl := pool()
+			for _, n := range names {
+				if c.Tier != "thorough" && (ri+mi)%2 == 1 && mu.name != "Clear()" && len(n) > 12 {
+					continue // the quick tier runs every mutator on every route, the long lists on half of the cells
+				}
+				orig := pl[n]
+				isArr := h.typeOf(orig) == "Array"
+				if mu.arrayOnly && !isArr {
+					continue
+				}
+				var list mSlice
+				sameList := false
+				if route[len(route)-5:] == "list)" {
+					if !isArr {
+						continue
+					}
+					sameList = true
+					// the list both variants are given: the one the original hands out is the only one it has been given
+					r, o := call(orig, "AsArray")
+					l, ok := r.(mSlice)
+					if o.kind != "ok" || !ok {
+						continue
+					}
+					list = mSlice{append([]mv{}, l.arr...)}
+					if orig2, o := m.Call(c.MustFunc(pkgVariants, "", "VariantFromArray"), list); o.kind == "ok" {
+						orig = orig2
+					}
+				}
+				var cp mv
+				var out mOutcome
+				switch route {
+				case "Clone()":
+					cp, out = call(orig, "Clone")
+				case "a clone of its clone":
+					if cp, out = call(orig, "Clone"); out.kind == "ok" {
+						cp, out = call(cp, "Clone")
+					}
+				case "EmptyVariant().Assign(it)":
+					cp, _ = m.Call(c.MustFunc(pkgVariants, "", "EmptyVariant"))
+					_, out = call(cp, "Assign", orig)
+				case "NewVariant(it)":
+					cp, out = m.Call(newVariant, mIface{t: vt, v: orig})
+				case "VariantFromObject(it)":
+					cp, out = m.Call(fromObject, mIface{t: vt, v: orig})
+				case "EmptyVariant().SetAsObject(it)":
+					cp, _ = m.Call(c.MustFunc(pkgVariants, "", "EmptyVariant"))
+					_, out = call(cp, "SetAsObject", mIface{t: vt, v: orig})
+				case "VariantFromArray(the same list)":
+					cp, out = m.Call(c.MustFunc(pkgVariants, "", "VariantFromArray"), list)
+				case "EmptyVariant().SetAsArray(the same list)":
+					cp, _ = m.Call(c.MustFunc(pkgVariants, "", "EmptyVariant"))
+					_, out = call(cp, "SetAsArray", list)
+				case "NewVariant(the same list)":
+					cp, out = m.Call(newVariant, mIface{t: types.NewSlice(vt), v: list})
+				}
+				where := fmt.Sprintf("%s, a copy of it made by %s, then %s on the copy", n, route, mu.name)
+				noteSample("OWN.model/copies", where)
+				if out.kind != "ok" {
+					if out.kind == "panic" {
+						note("copies", where+": making the copy panics: "+out.why, "")
+					} else {
+						note("copies", "", where+": "+out.why)
+					}
+					continue
+				}
+				before := deep(orig, 0)
+				beforeList := ""
+				if sameList {
+					beforeList = deepList(list)
+				}
+				if o := mu.run(cp); o.kind != "ok" {
+					if o.kind == "panic" {
+						note("copies", where+" panics: "+o.why, "")
+					} else {
+						note("copies", "", where+": "+o.why)
+					}
+					continue
+				}
+				if after := deep(orig, 0); after != before {
+					note("copies", fmt.Sprintf("%s: the original changes from %s to %s; mutating a copy never changes the original", where, before, after), "")
+					continue
+				}
+				if sameList {
+					if after := deepList(list); after != beforeList {
+						note("copies", fmt.Sprintf("%s: the caller's list changes from %s to %s; a variant keeps its own copy of the list it is given", where, beforeList, after), "")
+						continue
+					}
+				}
+				note("copies", "", "")
+			}
+		}
+	}
 	// ---- (d) equality is symmetric and never fails ----------------------------------------------------
 	p1, p2 := pool(), pool()
 	for _, a := range names {
@@ -547,12 +751,12 @@ func (c *Ctx) ownRun() map[string]*simpleVerdict {
 
 func init() {
 	register(&Rule{ID: "OWN.model", Floor: 4,
-		Doc: "variants evaluated abstractly through NewVariant / VariantFrom* / SetAs* / Assign / Clone / Equals / SetByIndex against the value model: 18 host values of every supported Go type (a nil and an empty list of variants included) give the matching type and come back through the accessor, through NewVariant and VariantFromObject, also when set on a variant that already holds any of the others; assigning a variant to itself changes nothing; lists given through six entry points are copied in and grow with nulls; a list without elements (nil, empty, empty with spare capacity) through five entry points is an array of length 0 that equals VariantFromArray of the same list and grows on its own; clones of 35 kinds of variants equal their original (NaN excepted) and are independent; equality over all ordered pairs is symmetric, true exactly on equal values and never panics (lists with empty slots in every position on either side, nested lists, lists of different lengths, maps, slices, nil included)",
+		Doc: "variants evaluated abstractly through NewVariant / VariantFrom* / SetAs* / Assign / Clone / Equals / SetByIndex against the value model: 18 host values of every supported Go type (a nil and an empty list of variants included) give the matching type and come back through the accessor, through NewVariant and VariantFromObject, also when set on a variant that already holds any of the others; assigning a variant to itself changes nothing; lists given through six entry points are copied in and grow with nulls; a list without elements (nil, empty, empty with spare capacity) through five entry points is an array of length 0 that equals VariantFromArray of the same list and grows on its own; clones of 35 kinds of variants equal their original (NaN excepted) and are independent; histories on copies: nine routes to a second holder of a value (Clone, Assign, NewVariant / VariantFromObject / SetAsObject of the variant, a second variant built from or set to the same list, a clone of a clone) x fourteen mutators of the copy (Clear, SetAs*, Assign, SetLength, SetByIndex inside and past the end, two in a row) leave the original and the caller's list as they were, nested lists included; equality over all ordered pairs is symmetric, true exactly on equal values and never panics (lists with empty slots in every position on either side, nested lists, lists of different lengths, maps, slices, nil included)",
 		Run: func(c *Ctx) []*Obligation {
 			o := newObl("OWN.model")
 			res := c.ownRun()
 			pos := c.Pos(c.MustFunc(pkgVariants, "", "NewVariant").Pos())
-			for _, k := range []string{"host-values", "lists", "clones", "equality"} {
+			for _, k := range []string{"host-values", "lists", "clones", "copies", "equality"} {
 				v := res[k]
 				if v == nil {
 					v = &simpleVerdict{}
